@@ -56,7 +56,7 @@ func normPos(t *TyDef, v *Val, proto bool) *Val {
 func normIn(t *TyDef, v *Val) *Val {
 	switch t.K {
 	case "named":
-		if t.Elem.K == "time" || t.Elem.isBytes() {
+		if t.Elem.K == "time" {
 			return v
 		}
 		return normIn(t.Elem, v)
